@@ -69,7 +69,8 @@ def generate(rng, tier):
                          "BatchId": rng.pick([1, 2, 12, 11, 21, 112]) if digits else rng.randint(1, 9), "RecordId": 1000 + k,
                          "obfuscated": rng.chance(0.2), "CountingGroupId": rng.pick([1, 2, 2, 3, 0]),
                          "Original": orig, "Modified": mod, "modified_first": rng.chance(0.5),
-                         "cards_split": rng.randint(1, 3), "key_shuffle": rng.getrandbits(16)})
+                         "cards_split": rng.randint(1, 3), "key_shuffle": rng.getrandbits(16),
+                         "iscurrent": rng.pick(["realistic", "realistic", "all-true"])})
     opts = {"use_current": rng.chance(0.6), "enforce_rules": rng.chance(0.6),
             "include_groups": rng.pick([[], [], [2], [1, 2], [3], [0, 2], [1]]), "pool_groups": rng.pick([[], [1], [2], [1, 3], [0]])}
     nfiles = rng.pick([0, 0, 1, 2, 3])  # 0 = single file via read_cvrs
@@ -81,22 +82,23 @@ def serialise_session(s, layout):
     import random
     rnd = random.Random(s["key_shuffle"])
 
-    def version(contests):
+    def version(contests, current=True):
         cons = copy.deepcopy(contests)
         for c in cons:
             keys = list(c["Marks"][0].keys()) if c["Marks"] else []
             c["Marks"] = [{k: m[k] for k in rnd.sample(keys, len(keys))} for m in c["Marks"]]
         if layout == "old":
-            return {"Contests": cons, "IsCurrent": True}
+            return {"Contests": cons, "IsCurrent": current}
         # new layout: contests spread over cards
         n = max(1, min(s["cards_split"], max(1, len(cons))))
         cards = [{"Id": i + 1, "Contests": []} for i in range(n)]
         for i, c in enumerate(cons):
             cards[i % n]["Contests"].append(c)
-        return {"Cards": cards, "IsCurrent": True}
+        return {"Cards": cards, "IsCurrent": current}
 
     body = []
-    o = ("Original", version(s["Original"]))
+    # real exports mark the original data as not current once adjudicated data exist
+    o = ("Original", version(s["Original"], current=not (s.get("iscurrent") == "realistic" and s["Modified"] is not None)))
     m = ("Modified", version(s["Modified"])) if s["Modified"] is not None else None
     if m is not None and s["modified_first"]:
         body = [m, o]
